@@ -16,6 +16,7 @@ import (
 	"fmt"
 	"os"
 	"path/filepath"
+	"runtime"
 	"sync"
 	"sync/atomic"
 	"time"
@@ -209,6 +210,7 @@ func main() {
 							defer wg.Done()
 							arrived.Add(1)
 							for spins := 0; arrived.Load() < int32(e.N) && spins < 1_000_000; spins++ {
+								runtime.Gosched() // yield: all goroutines of the batch reach the real code together
 							}
 							switch rn.request(e.R, e.G) {
 							case "pass":
@@ -238,6 +240,7 @@ func main() {
 							// spin barrier: all goroutines enter the real code as simultaneously as possible
 							arrived.Add(1)
 							for spins := 0; arrived.Load() < n && spins < 1_000_000; spins++ {
+								runtime.Gosched() // yield: all goroutines of the batch reach the real code together
 							}
 							b := tr.Stamp()
 							out := rn.request(q.R, q.G)
